@@ -78,6 +78,7 @@ func cmdDump(args []string) {
 	fs := flag.NewFlagSet("dump", flag.ExitOnError)
 	repo := fs.String("repo", "/repo", "")
 	fn := fs.String("fn", "", "contract key suffix")
+	tmo := fs.Int("t", 10, "solver timeout (s)")
 	fs.Parse(args)
 	w := setup(*repo)
 	initTmp()
@@ -109,7 +110,7 @@ func cmdDump(args []string) {
 			rs = append(rs, r)
 		}
 	}
-	discharge(rs, 16, 3*time.Second, 60*time.Second)
+	discharge(rs, 16, 3*time.Second, time.Duration(*tmo)*time.Second)
 	for _, r := range rs {
 		fmt.Printf("== %s (%.2fs gen) err=%q\n", r.Name, r.Secs, r.Err)
 		for k, n := range r.Abstracts {
@@ -117,6 +118,9 @@ func cmdDump(args []string) {
 		}
 		for _, o := range r.Obls {
 			fmt.Printf("   %-8s %-7s %5.2fs sz=%d %s\n", o.Status, o.Solver, o.Secs, o.QuerySz, o.Name)
+			if o.Status != "sat" && o.Status != "unsat" && os.Getenv("GOVC_VERBOSE") != "" {
+				fmt.Printf("        raw: %s\n", truncate(o.RawOut, 600))
+			}
 			if o.Status == "sat" {
 				var ks []string
 				for k := range o.Model {
